@@ -12,7 +12,9 @@ for d in sorted(glob.glob("/verif/seeded/*_?")):
     if not title:   # the title line has no text: use the first content line
         title = next((re.sub(r'^[-*\s]+', '', l).strip() for l in notes[1:] if l.strip()), "")
     title = OVERRIDE.get("%s-%s" % (P, V), title)
-    log = "/tmp/mut/%s.%s.check.log" % (P, V)
+    log = os.path.join(d, "check.log")      # copy of the log of the last confirmation run (tool/seedtest.sh writes /tmp/mut/<P>.<V>.check.log)
+    if not os.path.exists(log):
+        log = "/tmp/mut/%s.%s.check.log" % (P, V)
     obs, conf = [], 0
     if os.path.exists(log):
         for line in open(log):
